@@ -20,6 +20,7 @@ The Base class defines an API which all compiler implementations should follow
 """
 
 import logging
+import os
 from abc import ABC, abstractmethod
 
 import numpy as np
@@ -28,6 +29,13 @@ import graphiq.circuit.ops as ops
 import graphiq.noise.noise_models as nm
 from graphiq.circuit.circuit_base import CircuitBase
 from graphiq.state import QuantumState
+
+
+# Verification hook, active only when the environment variable GRAPHIQ_VERIF is "1" and a callback is
+# registered: compile() reports each operation just before it is executed together with a copy of the
+# classical register file as it stands (i.e. after the previous operation), and once more at the end.
+verif_callback = None
+_VERIF_ENABLED = os.environ.get("GRAPHIQ_VERIF") == "1"
 
 
 class CompilerBase(ABC):
@@ -113,6 +121,8 @@ class CompilerBase(ABC):
         seq = circuit.sequence(unwrapped=True)
 
         for op in seq:
+            if _VERIF_ENABLED and verif_callback is not None:
+                verif_callback("op", op, classical_registers.copy())
             if type(op) not in self.ops:
                 raise RuntimeError(
                     f"The Operation class {op.__class__.__name__} is not valid with "
@@ -246,6 +256,8 @@ class CompilerBase(ABC):
                     else:
                         raise ValueError("Noise position is not acceptable.")
 
+        if _VERIF_ENABLED and verif_callback is not None:
+            verif_callback("end", None, classical_registers.copy())
         return state
 
     def validate_ops(self, circuit):
